@@ -233,4 +233,641 @@ Proof.
       destruct q; [tauto|]. destruct cs; [|tauto]. destruct Hm as [-> | ->]; tauto.
 Qed.
 
+(* ---- a whole text: rows of flagged fields, each followed by the line terminator *)
+
+Definition rows_text (term : str) (frows : list (list (bool * str))) : str :=
+  concat (map (fun fs => row_text fs ++ term) frows).
+
+(* a row the writer may emit: every field well-formed, and never a lone bare empty field
+   (the writer emits [""] for it: csv_writerow's "single empty field" rule) *)
+Definition frow_ok (fs : list (bool * str)) : Prop := Forall field_ok fs /\ fs <> [(false, [])].
+
+Lemma run_rows frows : forall out term,
+  is_term term -> Forall frow_ok frows ->
+  run' r0 out (rows_text term frows) = Ok (rev out ++ map (map snd) frows).
+Proof.
+  induction frows as [|fs rest IH]; intros out term Ht Hok.
+  - cbn. rewrite frev_rev, app_nil_r. reflexivity.
+  - inversion Hok as [|fs' rest' [Hfs Hne] Hrest]; subst.
+    unfold rows_text. cbn [map concat]. fold (rows_text term rest). rewrite <- app_assoc.
+    destruct fs as [|p fs].
+    + change (row_text []) with (@nil char). cbn [app]. unfold r0.
+      rewrite run_term_empty by exact Ht. rewrite IH by assumption.
+      cbn [rev map]. rewrite <- app_assoc. reflexivity.
+    + unfold r0 at 1. rewrite run_fields; [|discriminate|left; reflexivity|exact Hfs|exact Ht|intros [_ E]; exact (Hne E)].
+      rewrite IH by assumption. rewrite app_nil_r, frev_rev, rev_involutive.
+      cbn [rev map]. rewrite <- app_assoc. reflexivity.
+Qed.
+
+(* ---- the same with a continuation, and what happens at a field that exceeds the limit *)
+
+Lemma run_rows_more frows : forall out term more,
+  is_term term -> Forall frow_ok frows ->
+  run' r0 out (rows_text term frows ++ more) = run' r0 (rev (map (map snd) frows) ++ out) more.
+Proof.
+  induction frows as [|fs rest IH]; intros out term more Ht Hok; [reflexivity|].
+  inversion Hok as [|fs' rest' [Hfs Hne] Hrest]; subst.
+  unfold rows_text. cbn [map concat]. fold (rows_text term rest). rewrite <- !app_assoc.
+  destruct fs as [|p fs].
+  - change (row_text []) with (@nil char). cbn [app]. unfold r0 at 1.
+    rewrite run_term_empty by exact Ht. rewrite IH by assumption.
+    cbn [rev map]. rewrite <- app_assoc. reflexivity.
+  - unfold r0 at 1. rewrite run_fields; [|discriminate|left; reflexivity|exact Hfs|exact Ht|intros [_ E]; exact (Hne E)].
+    rewrite IH by assumption. rewrite app_nil_r, frev_rev, rev_involutive.
+    cbn [rev map]. rewrite <- app_assoc. reflexivity.
+Qed.
+
+Lemma rows_text_app term a b : rows_text term (a ++ b) = rows_text term a ++ rows_text term b.
+Proof. unfold rows_text. rewrite map_app, concat_app. reflexivity. Qed.
+
+Lemma escape_app a b : escape' (a ++ b) = escape' a ++ escape' b.
+Proof.
+  induction a as [|c a IH]; [reflexivity|]. cbn [app escape_field]. rewrite IH.
+  destruct (c =? quote); reflexivity.
+Qed.
+
+Lemma escape_cons_nonnil c s : escape' (c :: s) <> [].
+Proof. cbn [escape_field]. destruct (c =? quote); discriminate. Qed.
+
+Lemma run_quoted_body_gen cs : forall f n rw out rest,
+  rest <> [] -> n + N.of_nat (length cs) <= lim ->
+  run' (mkR InQuoted f n rw) out (escape' cs ++ rest)
+  = run' (mkR InQuoted (rev cs ++ f) (n + N.of_nat (length cs)) rw) out rest.
+Proof.
+  induction cs as [|c cs IH]; intros f n rw out rest Hr Hb.
+  - cbn. rewrite N.add_0_r. reflexivity.
+  - assert (Hne : escape' cs ++ rest <> []).
+    { intros E. apply app_eq_nil in E. destruct E as [_ E]. exact (Hr E). }
+    cbn [escape_field length] in *. rewrite Nat2N.inj_succ in *.
+    destruct (c =? quote) eqn:Ec.
+    + apply N.eqb_eq in Ec. subst c. cbn [app].
+      rewrite run_inq_quote; [|lia|exact Hne].
+      rewrite IH by (auto; lia). cbn [rev]. rewrite <- app_assoc. cbn [app].
+      f_equal. f_equal. lia.
+    + cbn [app]. rewrite run_inq_char; [|exact Ec|lia].
+      rewrite IH by (auto; lia). cbn [rev]. rewrite <- app_assoc. cbn [app].
+      f_equal. f_equal. lia.
+Qed.
+
+Lemma run_inq_overflow f rw out c s2 tail :
+  run' (mkR InQuoted f lim rw) out (escape' (c :: s2) ++ tail) = Err EFieldLimit.
+Proof.
+  cbn [escape_field]. destruct (c =? quote) eqn:Ec.
+  - apply N.eqb_eq in Ec. subst c. cbn [app run]. unfold step at 1. cbn [md]. rewrite N.eqb_refl.
+    rewrite (eol_after_plain quote _ Hq_nl) by discriminate.
+    unfold step at 1. unfold set_md. cbn [md fld flen row]. rewrite N.eqb_refl.
+    unfold add_char. cbn [flen]. rewrite N.leb_refl. reflexivity.
+  - cbn [app run]. unfold step at 1. cbn [md]. rewrite Ec. unfold add_char. cbn [flen].
+    rewrite N.leb_refl. reflexivity.
+Qed.
+
+Lemma run_bare_overflow m f rw out c tail :
+  m = InField \/ at_start m -> special c = false ->
+  run' (mkR m f lim rw) out (c :: tail) = Err EFieldLimit.
+Proof.
+  intros Hm Hc. destruct (special_false c Hc) as [H1 [H2 H3]].
+  cbn [run]. destruct Hm as [-> | [-> | ->]]; unfold step, step_start_field; cbn [md]; rewrite ?H3, ?H2, ?H1;
+    unfold add_char, set_md; cbn [flen]; rewrite N.leb_refl; reflexivity.
+Qed.
+
+Lemma split_at_lim (s : str) :
+  lim < N.of_nat (length s) -> exists s1 c s2, s = s1 ++ c :: s2 /\ N.of_nat (length s1) = lim.
+Proof.
+  intros H. set (k := N.to_nat lim).
+  assert (Hk : (k < length s)%nat) by (unfold k; lia).
+  destruct (skipn k s) as [|c s2] eqn:Es.
+  - apply (f_equal (@length _)) in Es. rewrite skipn_length in Es. cbn in Es. lia.
+  - exists (firstn k s), c, s2. split.
+    + rewrite <- Es. symmetry. apply firstn_skipn.
+    + rewrite firstn_length. unfold k. lia.
+Qed.
+
+Lemma run_field_overflow p : forall m rw out tail,
+  at_start m -> lim < N.of_nat (length (snd p)) ->
+  fst p = true \/ forallb (fun c => negb (special c)) (snd p) = true ->
+  run' (mkR m [] 0 rw) out (wfield p ++ tail) = Err EFieldLimit.
+Proof.
+  destruct p as [q s]. cbn [fst snd]. intros m rw out tail Hm Hlen Hq.
+  destruct (split_at_lim s Hlen) as [s1 [c [s2 [Es Hl1]]]]. subst s. unfold wfield. cbn [fst snd].
+  destruct q.
+  - (* quoted *)
+    rewrite escape_app. cbn [app]. rewrite <- !app_assoc.
+    assert (E1 : forall X, X <> [] -> run' (mkR m [] 0 rw) out (quote :: X) = run' (mkR InQuoted [] 0 rw) out X).
+    { intros X HX. cbn [run]. rewrite (eol_after_plain quote _ Hq_nl HX).
+      destruct Hm as [-> | ->]; unfold step, step_start_field; cbn [md]; rewrite ?Hq_nl, N.eqb_refl; reflexivity. }
+    rewrite E1.
+    + rewrite run_quoted_body_gen; [| |lia].
+      * rewrite N.add_0_l, Hl1. apply run_inq_overflow.
+      * intros E. apply app_eq_nil in E. destruct E as [E _]. exact (escape_cons_nonnil c s2 E).
+    + intros E. apply app_eq_nil in E. destruct E as [_ E]. apply app_eq_nil in E. destruct E as [E _].
+      exact (escape_cons_nonnil c s2 E).
+  - (* bare *)
+    destruct Hq as [Hq|Hq]; [discriminate|].
+    rewrite forallb_app in Hq. apply andb_true_iff in Hq. destruct Hq as [Hs1 Hcs2].
+    cbn [forallb] in Hcs2. apply andb_true_iff in Hcs2. destruct Hcs2 as [Hc _]. apply negb_true_iff in Hc.
+    rewrite <- app_assoc. cbn [app].
+    destruct s1 as [|c0 s1].
+    + cbn [length] in Hl1. cbn [app]. change (N.of_nat 0) with 0 in Hl1.
+      rewrite Hl1. apply run_bare_overflow; [right; exact Hm|]. exact Hc.
+    + cbn [forallb] in Hs1. apply andb_true_iff in Hs1. destruct Hs1 as [Hc0 Hs1].
+      apply negb_true_iff in Hc0. destruct (special_false c0 Hc0) as [H1 [H2 H3]].
+      cbn [length] in Hl1. rewrite Nat2N.inj_succ in Hl1. cbn [app].
+      assert (E1 : run' (mkR m [] 0 rw) out (c0 :: s1 ++ c :: s2 ++ tail)
+                   = run' (mkR InField [c0] 1 rw) out (s1 ++ c :: s2 ++ tail)).
+      { cbn [run]. rewrite (eol_after_plain c0 _ H3) by (destruct s1; discriminate).
+        assert (Hl : (lim <=? 0) = false) by (apply leb_gt_false; lia).
+        destruct Hm as [-> | ->]; unfold step, step_start_field; cbn [md]; rewrite ?H3, H2, H1;
+          unfold add_char, set_md; cbn [flen fld md row]; rewrite Hl; reflexivity. }
+      rewrite E1. rewrite run_infield_body; [|exact Hs1|discriminate|lia].
+      replace (1 + N.of_nat (length s1)) with lim by lia.
+      apply run_bare_overflow; [left; reflexivity|exact Hc].
+Qed.
+
+Lemma row_text_cons p l : l <> [] -> row_text (p :: l) = wfield p ++ delim :: row_text l.
+Proof. destruct l as [|p2 l]; [congruence|reflexivity]. Qed.
+
+Lemma run_fields_prefix fs1 : forall m rw out p fs2 more,
+  at_start m -> Forall field_ok fs1 -> more <> [] ->
+  exists m' rw', at_start m' /\
+    run' (mkR m [] 0 rw) out (row_text (fs1 ++ p :: fs2) ++ more)
+    = run' (mkR m' [] 0 rw') out (row_text (p :: fs2) ++ more).
+Proof.
+  induction fs1 as [|p1 fs1 IH]; intros m rw out p fs2 more Hm Hok Hmore.
+  - exists m, rw. split; [exact Hm|reflexivity].
+  - inversion Hok as [|p1' fs1' Hp1 Hfs1]; subst. cbn [app].
+    rewrite row_text_cons by (destruct fs1; discriminate). rewrite <- app_assoc. cbn [app].
+    rewrite run_field by (auto; discriminate).
+    assert (Hrest : row_text (fs1 ++ p :: fs2) ++ more <> []).
+    { intros E. apply app_eq_nil in E. destruct E as [_ E]. exact (Hmore E). }
+    rewrite run_delim; [| |exact Hrest].
+    + apply IH; [right; reflexivity|exact Hfs1|exact Hmore].
+    + destruct p1 as [q cs]. unfold after_field, field_end. cbn [fst snd].
+      destruct q; [tauto|]. destruct cs; [|tauto]. destruct Hm as [-> | ->]; tauto.
+Qed.
+
+Lemma row_text_head p fs2 more : exists tail, row_text (p :: fs2) ++ more = wfield p ++ tail.
+Proof.
+  destruct fs2 as [|p2 fs2].
+  - exists more. reflexivity.
+  - exists (delim :: row_text (p2 :: fs2) ++ more). rewrite row_text_cons by discriminate.
+    rewrite <- app_assoc. reflexivity.
+Qed.
+
+Lemma Forall_decidable {A} (P : A -> Prop) : (forall x, P x \/ ~ P x) -> forall l, Forall P l \/ ~ Forall P l.
+Proof.
+  intros Hd l. induction l as [|x l IH]; [left; constructor|].
+  destruct (Hd x) as [Hx|Hx]; [|right; intros H; inversion H; contradiction].
+  destruct IH as [Hl|Hl]; [left; constructor; assumption|right; intros H; inversion H; contradiction].
+Qed.
+
+Lemma Forall_split_first {A} (P : A -> Prop) : (forall x, P x \/ ~ P x) -> forall l,
+  ~ Forall P l -> exists l1 x l2, l = l1 ++ x :: l2 /\ Forall P l1 /\ ~ P x.
+Proof.
+  intros Hd l. induction l as [|x l IH]; intros Hn; [exfalso; apply Hn; constructor|].
+  destruct (Hd x) as [Hx|Hx].
+  - destruct IH as [l1 [y [l2 [E [H1 H2]]]]].
+    + intros Hl. apply Hn. constructor; assumption.
+    + exists (x :: l1), y, l2. split; [rewrite E; reflexivity|]. split; [constructor; assumption|exact H2].
+  - exists [], x, l. split; [reflexivity|]. split; [constructor|exact Hx].
+Qed.
+
+(* ---- universal-newline translation (a file opened with newline=None) *)
+
+Lemma list_ind2 {A} (P : list A -> Prop) :
+  P [] -> (forall x, P [x]) -> (forall x y l, P l -> P (y :: l) -> P (x :: y :: l)) -> forall l, P l.
+Proof.
+  intros H0 H1 H2 l. assert (H : P l /\ forall x, P (x :: l)).
+  { induction l as [|y l [IHa IHb]]; [split; [exact H0|exact H1]|].
+    split; [apply IHb|]. intros x. apply H2; [exact IHa|apply IHb]. }
+  exact (proj1 H).
+Qed.
+
+Definition starts_lf (b : str) : bool := match b with d :: _ => d =? c_lf | [] => false end.
+
+Lemma translate_crlf b : translate (c_cr :: c_lf :: b) = c_lf :: translate b.
+Proof. reflexivity. Qed.
+
+Lemma translate_cr b : starts_lf b = false -> translate (c_cr :: b) = c_lf :: translate b.
+Proof. destruct b as [|d b]; [reflexivity|]. cbn [starts_lf]. intros H. cbn [translate]. rewrite N.eqb_refl, H. reflexivity. Qed.
+
+Lemma translate_noncr c b : (c =? c_cr) = false -> translate (c :: b) = c :: translate b.
+Proof. intros H. cbn [translate]. rewrite H. reflexivity. Qed.
+
+Lemma translate_app a : forall b, starts_lf b = false -> translate (a ++ b) = translate a ++ translate b.
+Proof.
+  induction a as [| x | x y l IH1 IH2] using list_ind2; intros b Hb.
+  - reflexivity.
+  - cbn [app]. destruct (x =? c_cr) eqn:E.
+    + apply N.eqb_eq in E. subst x. rewrite translate_cr by exact Hb. reflexivity.
+    + rewrite !translate_noncr by exact E. reflexivity.
+  - cbn [app]. destruct (x =? c_cr) eqn:E.
+    + apply N.eqb_eq in E. subst x. destruct (y =? c_lf) eqn:Ey.
+      * apply N.eqb_eq in Ey. subst y. rewrite !translate_crlf, IH1 by exact Hb. reflexivity.
+      * rewrite !translate_cr by (cbn [starts_lf]; exact Ey).
+        change (y :: l ++ b) with ((y :: l) ++ b). rewrite IH2 by exact Hb. reflexivity.
+    + rewrite !(translate_noncr x) by exact E.
+      change (y :: l ++ b) with ((y :: l) ++ b). rewrite IH2 by exact Hb. reflexivity.
+Qed.
+
+Lemma translate_id s : forallb (fun c => negb (c =? c_cr)) s = true -> translate s = s.
+Proof.
+  induction s as [|c s IH]; [reflexivity|]. cbn [forallb]. intros H. apply andb_true_iff in H. destruct H as [Hc Hs].
+  apply negb_true_iff in Hc. rewrite translate_noncr by exact Hc. rewrite IH by exact Hs. reflexivity.
+Qed.
+
+Lemma translate_length s : (length (translate s) <= length s)%nat.
+Proof.
+  induction s as [| x | x y l IH1 IH2] using list_ind2.
+  - cbn. lia.
+  - destruct (x =? c_cr) eqn:E; [apply N.eqb_eq in E; subst x; cbn; lia|rewrite translate_noncr by exact E; cbn; lia].
+  - destruct (x =? c_cr) eqn:E.
+    + apply N.eqb_eq in E. subst x. destruct (y =? c_lf) eqn:Ey.
+      * apply N.eqb_eq in Ey. subst y. rewrite translate_crlf. cbn [length] in *. lia.
+      * rewrite translate_cr by (cbn [starts_lf]; exact Ey). cbn [length] in *. lia.
+    + rewrite translate_noncr by exact E. cbn [length] in *. lia.
+Qed.
+
+Lemma translate_nil_inv s : translate s = [] -> s = [].
+Proof.
+  destruct s as [|c s]; [reflexivity|]. cbn [translate]. destruct (c =? c_cr); discriminate.
+Qed.
+
+Lemma quote_not_cr : (quote =? c_cr) = false.
+Proof. unfold is_nl in Hq_nl. apply orb_false_iff in Hq_nl. tauto. Qed.
+Lemma quote_not_lf : (quote =? c_lf) = false.
+Proof. unfold is_nl in Hq_nl. apply orb_false_iff in Hq_nl. tauto. Qed.
+Lemma delim_not_cr : (delim =? c_cr) = false.
+Proof. unfold is_nl in Hd_nl. apply orb_false_iff in Hd_nl. tauto. Qed.
+Lemma delim_not_lf : (delim =? c_lf) = false.
+Proof. unfold is_nl in Hd_nl. apply orb_false_iff in Hd_nl. tauto. Qed.
+
+Lemma escape_cons_other c s : (c =? quote) = false -> escape' (c :: s) = c :: escape' s.
+Proof. intros H. cbn [escape_field]. rewrite H. reflexivity. Qed.
+
+Lemma escape_cons_quote s : escape' (quote :: s) = quote :: quote :: escape' s.
+Proof. cbn [escape_field]. rewrite N.eqb_refl. reflexivity. Qed.
+
+Lemma starts_lf_escape y l : (y =? c_lf) = false -> starts_lf (escape' (y :: l)) = false.
+Proof.
+  intros H. cbn [escape_field]. destruct (y =? quote); cbn [starts_lf]; [exact quote_not_lf|exact H].
+Qed.
+
+Lemma translate_escape s : translate (escape' s) = escape' (translate s).
+Proof.
+  assert (Hcrq : (c_cr =? quote) = false) by (rewrite N.eqb_sym; exact quote_not_cr).
+  assert (Hlfq : (c_lf =? quote) = false) by (rewrite N.eqb_sym; exact quote_not_lf).
+  assert (Hstep : forall x l, (x =? c_cr) = false ->
+            translate (escape' l) = escape' (translate l) ->
+            translate (escape' (x :: l)) = escape' (translate (x :: l))).
+  { intros x l E IH. rewrite (translate_noncr x) by exact E. destruct (x =? quote) eqn:Eq.
+    - apply N.eqb_eq in Eq. subst x. rewrite !escape_cons_quote.
+      rewrite !(translate_noncr quote) by exact quote_not_cr. rewrite IH. reflexivity.
+    - rewrite !escape_cons_other by exact Eq. rewrite translate_noncr by exact E. rewrite IH. reflexivity. }
+  induction s as [| x | x y l IH1 IH2] using list_ind2.
+  - reflexivity.
+  - destruct (x =? c_cr) eqn:E.
+    + apply N.eqb_eq in E. subst x. rewrite escape_cons_other by exact Hcrq. cbn [escape_field translate].
+      rewrite N.eqb_refl. rewrite escape_cons_other by exact Hlfq. reflexivity.
+    + apply Hstep; [exact E|reflexivity].
+  - destruct (x =? c_cr) eqn:E.
+    + apply N.eqb_eq in E. subst x. rewrite escape_cons_other by exact Hcrq.
+      destruct (y =? c_lf) eqn:Ey.
+      * apply N.eqb_eq in Ey. subst y. rewrite escape_cons_other by exact Hlfq.
+        rewrite !translate_crlf, IH1. rewrite escape_cons_other by exact Hlfq. reflexivity.
+      * rewrite translate_cr by (apply starts_lf_escape; exact Ey).
+        rewrite translate_cr by (cbn [starts_lf]; exact Ey).
+        rewrite IH2. rewrite escape_cons_other by exact Hlfq. reflexivity.
+    + apply Hstep; [exact E|exact IH2].
+Qed.
+
+Definition trf (p : bool * str) : bool * str := (fst p, translate (snd p)).
+
+Lemma special_not_cr s : forallb (fun c => negb (special c)) s = true -> forallb (fun c => negb (c =? c_cr)) s = true.
+Proof.
+  intros H. rewrite forallb_forall in *. intros c Hc. specialize (H c Hc).
+  apply negb_true_iff in H. destruct (special_false c H) as [_ [_ H3]].
+  unfold is_nl in H3. apply orb_false_iff in H3. destruct H3 as [_ H3]. rewrite H3. reflexivity.
+Qed.
+
+Lemma translate_wfield p :
+  fst p = true \/ forallb (fun c => negb (special c)) (snd p) = true ->
+  translate (wfield p) = wfield (trf p).
+Proof.
+  destruct p as [q s]. unfold wfield, trf. cbn [fst snd]. intros H. destruct q.
+  - rewrite translate_noncr by exact quote_not_cr.
+    rewrite translate_app by (cbn [starts_lf]; exact quote_not_lf).
+    rewrite translate_escape. cbn [translate]. rewrite quote_not_cr. reflexivity.
+  - destruct H as [H|H]; [discriminate|]. cbv iota. rewrite translate_id by (apply special_not_cr; exact H). reflexivity.
+Qed.
+
+Lemma translate_row_text fs : Forall field_ok fs -> translate (row_text fs) = row_text (map trf fs).
+Proof.
+  induction fs as [|p fs IH]; intros H; [reflexivity|].
+  inversion H as [|p' fs' [_ Hp] Hfs]; subst.
+  destruct fs as [|p2 fs].
+  - unfold row_text. cbn [map join_char]. apply translate_wfield, Hp.
+  - unfold row_text in *. cbn [map join_char] in *.
+    rewrite translate_app by (cbn [starts_lf]; exact delim_not_lf).
+    rewrite translate_wfield by exact Hp. rewrite translate_noncr by exact delim_not_cr.
+    rewrite IH by exact Hfs. reflexivity.
+Qed.
+
+Lemma translate_rows_text frows :
+  Forall frow_ok frows ->
+  translate (rows_text [c_cr; c_lf] frows) = rows_text [c_lf] (map (map trf) frows).
+Proof.
+  induction frows as [|fs rest IH]; intros H; [reflexivity|].
+  inversion H as [|fs' rest' [Hfs _] Hrest]; subst.
+  unfold rows_text in *. cbn [map concat]. rewrite <- !app_assoc.
+  rewrite translate_app by reflexivity. cbn [app]. rewrite translate_crlf.
+  rewrite translate_row_text by exact Hfs. rewrite IH by exact Hrest. reflexivity.
+Qed.
+
+Lemma field_ok_trf p : field_ok p -> field_ok (trf p).
+Proof.
+  destruct p as [q s]. unfold field_ok, trf. cbn [fst snd]. intros [Hl Hq]. split.
+  - pose proof (translate_length s). lia.
+  - destruct Hq as [Hq|Hq]; [left; exact Hq|right]. rewrite translate_id by (apply special_not_cr, Hq). exact Hq.
+Qed.
+
+Lemma frow_ok_trf fs : frow_ok fs -> frow_ok (map trf fs).
+Proof.
+  intros [Hf Hne]. split.
+  - apply Forall_map. revert Hf. apply Forall_impl. exact field_ok_trf.
+  - intros E. apply Hne. destruct fs as [|[q s] fs]; [discriminate|]. destruct fs; [|discriminate].
+    cbn in E. inversion E as [[Eq Es]]. apply translate_nil_inv in Es. subst. reflexivity.
+Qed.
+
+(* ---- the writer emits such a text *)
+
+Lemma existsb_ext' {A} (f g : A -> bool) l : (forall x, f x = g x) -> existsb f l = existsb g l.
+Proof. intros H. induction l as [|x l IH]; cbn; [reflexivity|]. rewrite H, IH. reflexivity. Qed.
+
+Lemma existsb_false_forallb {A} (f : A -> bool) l : existsb f l = false -> forallb (fun x => negb (f x)) l = true.
+Proof.
+  induction l as [|x l IH]; cbn; [reflexivity|]. intros H. apply orb_false_iff in H. destruct H as [H1 H2].
+  rewrite H1, IH by exact H2. reflexivity.
+Qed.
+
+Section Writer.
+Variable term : str.
+Hypothesis Hterm : term = [c_cr; c_lf].
+
+Lemma needs_quote_special c : needs_quote delim quote term c = special c.
+Proof.
+  unfold needs_quote, special. f_equal. subst term. unfold mem_char, is_nl.
+  rewrite orb_false_r, orb_comm. rewrite (N.eqb_sym c_lf c), (N.eqb_sym c_cr c). reflexivity.
+Qed.
+
+Definition flag_field (s : str) : bool * str := (existsb special s, s).
+
+Definition flag_row (r : list str) : list (bool * str) :=
+  match r with
+  | [[]] => [(true, [])]
+  | _ => map flag_field r
+  end.
+
+Lemma write_field_flag s : write_field delim quote term s = wfield (flag_field s).
+Proof.
+  unfold write_field, wfield, flag_field. cbn [fst snd].
+  rewrite (existsb_ext' _ _ s needs_quote_special). reflexivity.
+Qed.
+
+Lemma wfield_nonnil p : p <> (false, []) -> wfield p <> [].
+Proof.
+  destruct p as [q s]. unfold wfield. cbn [fst snd]. destruct q; [discriminate|].
+  destruct s; [congruence|discriminate].
+Qed.
+
+Lemma row_text_nonnil fs : fs <> [] -> fs <> [(false, [])] -> row_text fs <> [].
+Proof.
+  intros H1 H2. destruct fs as [|p fs]; [congruence|]. unfold row_text. cbn [map join_char].
+  destruct fs as [|p2 fs].
+  - apply wfield_nonnil. intros E. apply H2. rewrite E. reflexivity.
+  - cbn [map]. intros E. apply app_eq_nil in E. destruct E as [_ E]. discriminate.
+Qed.
+
+Lemma map_wfield_flag r : map (write_field delim quote term) r = map wfield (map flag_field r).
+Proof. rewrite map_map. apply map_ext. exact write_field_flag. Qed.
+
+Lemma match_nonnil (b x : str) : b <> [] -> match b with [] => x | _ :: _ => b ++ term end = b ++ term.
+Proof. destruct b; [congruence|reflexivity]. Qed.
+
+Lemma write_row_flag r : write_row delim quote term r = row_text (flag_row r) ++ term.
+Proof.
+  unfold write_row. rewrite map_wfield_flag. fold (row_text (map flag_field r)).
+  destruct r as [|s r]; [reflexivity|].
+  destruct s as [|c s].
+  - destruct r as [|s2 r]; [reflexivity|].
+    unfold flag_row. apply match_nonnil. apply row_text_nonnil; discriminate.
+  - unfold flag_row. apply match_nonnil.
+    apply row_text_nonnil; [discriminate|]. cbn [map]. unfold flag_field at 1. intros E. inversion E.
+Qed.
+
+Lemma csv_write_flag rows : csv_write delim quote term rows = rows_text term (map flag_row rows).
+Proof.
+  unfold csv_write, rows_text. rewrite map_map. f_equal. apply map_ext. exact write_row_flag.
+Qed.
+
+Lemma snd_flag_row r : map snd (flag_row r) = r.
+Proof.
+  destruct r as [|s r]; [reflexivity|]. destruct s as [|c s].
+  - destruct r as [|s2 r]; [reflexivity|]. unfold flag_row. rewrite map_map. cbn [flag_field snd]. apply map_id.
+  - unfold flag_row. rewrite map_map. cbn [flag_field snd]. apply map_id.
+Qed.
+
+Definition len_ok (s : str) : Prop := N.of_nat (length s) <= lim.
+
+Lemma field_ok_flag s : len_ok s -> field_ok (flag_field s).
+Proof.
+  intros H. unfold field_ok, flag_field. cbn [fst snd]. split; [exact H|].
+  destruct (existsb special s) eqn:E; [left; reflexivity|right; apply existsb_false_forallb, E].
+Qed.
+
+Lemma frow_ok_flag r : Forall len_ok r -> frow_ok (flag_row r).
+Proof.
+  intros H. unfold frow_ok.
+  assert (Hm : Forall field_ok (map flag_field r)).
+  { apply Forall_map. revert H. apply Forall_impl. exact field_ok_flag. }
+  destruct r as [|s r]; [split; [constructor|discriminate]|].
+  destruct s as [|c s].
+  - destruct r as [|s2 r].
+    + cbn. split; [|discriminate]. constructor; [|constructor]. split; [|left; reflexivity].
+      cbn. apply N.le_0_l.
+    + split; [exact Hm|discriminate].
+  - split; [exact Hm|]. cbn. intros E. inversion E.
+Qed.
+
+(* the codec theorem: the reader undoes the writer on every list of rows of arbitrary
+   strings; the only side condition is the reader's field size limit *)
+Theorem csv_roundtrip_gen rows :
+  Forall (Forall len_ok) rows ->
+  csv_read delim quote lim (csv_write delim quote term rows) = Ok rows.
+Proof.
+  intros H. unfold csv_read. rewrite csv_write_flag.
+  rewrite run_rows.
+  - cbn [rev app]. f_equal. rewrite map_map. rewrite <- (map_id rows) at 2. apply map_ext. exact snd_flag_row.
+  - left. exact Hterm.
+  - apply Forall_map. revert H. apply Forall_impl. exact frow_ok_flag.
+Qed.
+
+Lemma snd_trf_flag_row r : map snd (map trf (flag_row r)) = map translate r.
+Proof.
+  rewrite map_map. rewrite <- (snd_flag_row r) at 2. rewrite map_map. reflexivity.
+Qed.
+
+(* the same file read through a text stream opened with newline=None (what sheets.load_csv
+   does): the rows come back with every cell newline-normalised, nothing else changes *)
+Theorem csv_text_roundtrip_gen rows :
+  Forall (Forall len_ok) rows ->
+  csv_read delim quote lim (translate (csv_write delim quote term rows)) = Ok (map (map translate) rows).
+Proof.
+  intros H. unfold csv_read. rewrite csv_write_flag.
+  assert (Hok : Forall frow_ok (map flag_row rows)).
+  { apply Forall_map. revert H. apply Forall_impl. exact frow_ok_flag. }
+  rewrite Hterm. rewrite translate_rows_text by exact Hok.
+  rewrite run_rows.
+  - cbn [rev app]. f_equal. rewrite !map_map. apply map_ext. intros r. apply snd_trf_flag_row.
+  - right. reflexivity.
+  - apply Forall_map. revert Hok. apply Forall_impl. exact frow_ok_trf.
+Qed.
+
+Lemma len_ok_decidable s : len_ok s \/ ~ len_ok s.
+Proof. unfold len_ok. destruct (N.leb_spec (N.of_nat (length s)) lim); [left; assumption|right; lia]. Qed.
+
+(* the guard is exact: as soon as one field is longer than the limit the reader refuses the
+   text the writer produced (whatever else the rows contain) *)
+Theorem csv_limit_exceeded_gen rows :
+  ~ Forall (Forall len_ok) rows ->
+  csv_read delim quote lim (csv_write delim quote term rows) = Err EFieldLimit.
+Proof.
+  intros Hn.
+  destruct (Forall_split_first _ (Forall_decidable _ len_ok_decidable) rows Hn) as [pre [r [post [Er [Hpre Hr]]]]].
+  destruct (Forall_split_first _ len_ok_decidable r Hr) as [f1 [s [f2 [Ef [Hf1 Hs]]]]].
+  assert (Hlen : lim < N.of_nat (length s)) by (unfold len_ok in Hs; lia).
+  unfold csv_read. rewrite csv_write_flag. subst rows. rewrite map_app. cbn [map].
+  rewrite rows_text_app. rewrite run_rows_more.
+  - unfold rows_text at 1. cbn [map concat]. rewrite <- !app_assoc.
+    assert (Efl : flag_row r = map flag_field f1 ++ flag_field s :: map flag_field f2).
+    { assert (Hne : r <> [[]]).
+      { intros E. rewrite E in Ef. destruct f1 as [|a f1]; [|destruct f1; discriminate].
+        cbn [app] in Ef. inversion Ef as [[E1 E2]]. subst s. cbn in Hlen. lia. }
+      assert (Hfm : flag_row r = map flag_field r).
+      { destruct r as [|a r']; [reflexivity|]. destruct a; [destruct r'; [exfalso; apply Hne; reflexivity|reflexivity]|reflexivity]. }
+      rewrite Hfm, Ef, map_app. reflexivity. }
+    rewrite Efl. unfold r0 at 1.
+    destruct (run_fields_prefix (map flag_field f1) StartRecord [] (rev (map (map snd) (map flag_row pre)) ++ [])
+                (flag_field s) (map flag_field f2) (term ++ concat (map (fun fs => row_text fs ++ term) (map flag_row post))))
+      as [m' [rw' [Hm' E]]].
+    + left. reflexivity.
+    + apply Forall_map. revert Hf1. apply Forall_impl. exact field_ok_flag.
+    + rewrite Hterm. discriminate.
+    + rewrite E. destruct (row_text_head (flag_field s) (map flag_field f2)
+                             (term ++ concat (map (fun fs => row_text fs ++ term) (map flag_row post)))) as [tail Et].
+      rewrite Et. apply run_field_overflow; [exact Hm'|exact Hlen|].
+      unfold flag_field. cbn [fst snd]. destruct (existsb special s) eqn:Ex; [left; reflexivity|right; apply existsb_false_forallb, Ex].
+  - left. exact Hterm.
+  - apply Forall_map. revert Hpre. apply Forall_impl. exact frow_ok_flag.
+Qed.
+
+Corollary csv_roundtrip_iff_gen rows :
+  csv_read delim quote lim (csv_write delim quote term rows) = Ok rows <-> Forall (Forall len_ok) rows.
+Proof.
+  split; [|apply csv_roundtrip_gen].
+  intros H. destruct (Forall_decidable _ (Forall_decidable _ len_ok_decidable) rows) as [Hy|Hn]; [exact Hy|].
+  rewrite (csv_limit_exceeded_gen rows Hn) in H. discriminate.
+Qed.
+
+End Writer.
+
 End CsvFacts.
+
+(* ================================================================== the dialect in use *)
+
+(* The csv parameters are regenerated from the running interpreter / tablib on every run
+   (Gen/Tables.v).  The model in Csv.v is the model of a dialect with doublequote,
+   QUOTE_MINIMAL, no escapechar, no skipinitialspace, not strict; the facts above need the
+   quote character and the delimiter to be distinct non-newline characters and the line
+   terminator to be CR LF.  All of that is one boolean over the regenerated table: if tablib
+   or the interpreter ever change it, this lemma stops compiling. *)
+Definition csv_dialect_ok : bool :=
+  negb (is_nl csv_quotechar) && negb (is_nl csv_delimiter) && negb (csv_delimiter =? csv_quotechar)
+  && str_eqb csv_lineterminator [c_cr; c_lf]
+  && csv_doublequote && csv_quote_minimal && csv_no_escapechar && negb csv_skipinitialspace && negb csv_strict.
+
+Lemma csv_tables_ok : csv_dialect_ok = true.
+Proof. vm_compute. reflexivity. Qed.
+
+Lemma csv_q_nl : is_nl csv_quotechar = false.
+Proof. vm_compute. reflexivity. Qed.
+Lemma csv_d_nl : is_nl csv_delimiter = false.
+Proof. vm_compute. reflexivity. Qed.
+Lemma csv_dq : (csv_delimiter =? csv_quotechar) = false.
+Proof. vm_compute. reflexivity. Qed.
+Lemma csv_term : csv_lineterminator = [c_cr; c_lf].
+Proof. vm_compute. reflexivity. Qed.
+
+(* the reader's guard: csv.field_size_limit() characters per field *)
+Definition fits (s : str) : Prop := N.of_nat (length s) <= csv_field_limit.
+
+Definition csv_rd := csv_read csv_delimiter csv_quotechar csv_field_limit.
+Definition csv_wr := csv_write csv_delimiter csv_quotechar csv_lineterminator.
+
+Theorem csv_roundtrip rows : Forall (Forall fits) rows -> csv_rd (csv_wr rows) = Ok rows.
+Proof. exact (csv_roundtrip_gen _ _ _ csv_q_nl csv_d_nl csv_dq _ csv_term rows). Qed.
+
+Theorem csv_text_roundtrip rows :
+  Forall (Forall fits) rows -> csv_rd (translate (csv_wr rows)) = Ok (map (map translate) rows).
+Proof. exact (csv_text_roundtrip_gen _ _ _ csv_q_nl csv_d_nl csv_dq _ csv_term rows). Qed.
+
+(* a table exercising every writer rule: delimiter, quote, CR, LF, CR LF inside cells,
+   non-ASCII, a lone empty field (written [""]), an empty row (a blank line), an empty cell
+   between cells *)
+Definition ex_rows : list (list str) :=
+  [ [[97]; [44; 34; 13; 10]; []; [233; 19990; 128512]];
+    [[]];
+    [];
+    [[13]; [10]; [34; 34]; [97; 13; 98]];
+    [[]; []] ].
+
+Example csv_roundtrip_nonvacuous :
+  Forall (Forall fits) ex_rows /\
+  csv_wr ex_rows = [97; 44; 34; 44; 34; 34; 13; 10; 34; 44; 44; 233; 19990; 128512; 13; 10;
+                34; 34; 13; 10;
+                13; 10;
+                34; 13; 34; 44; 34; 10; 34; 44; 34; 34; 34; 34; 34; 34; 44; 34; 97; 13; 98; 34; 13; 10;
+                44; 13; 10] /\
+  csv_rd (csv_wr ex_rows) = Ok ex_rows.
+Proof.
+  assert (H : Forall (Forall fits) ex_rows).
+  { unfold ex_rows, fits. repeat constructor; vm_compute; discriminate. }
+  split; [exact H|]. split; [vm_compute; reflexivity|apply csv_roundtrip, H].
+Qed.
+
+Example csv_text_roundtrip_nonvacuous :
+  Forall (Forall fits) ex_rows /\ map (map translate) ex_rows <> ex_rows /\
+  csv_rd (translate (csv_wr ex_rows)) = Ok (map (map translate) ex_rows).
+Proof.
+  assert (H : Forall (Forall fits) ex_rows).
+  { unfold ex_rows, fits. repeat constructor; vm_compute; discriminate. }
+  split; [exact H|]. split; [vm_compute; discriminate|apply csv_text_roundtrip, H].
+Qed.
+
+(* the guard is needed: one field of csv.field_size_limit()+1 characters is written, and
+   refused by the reader (_csv.Error: field larger than field limit) *)
+Definition big_field : str := repeat 97 (N.to_nat (csv_field_limit + 1)).
+
+Theorem csv_roundtrip_unguarded_refuted :
+  ~ (forall rows, csv_rd (csv_wr rows) = Ok rows) /\ csv_rd (csv_wr [[big_field]]) = Err EFieldLimit.
+Proof.
+  assert (H : csv_rd (csv_wr [[big_field]]) = Err EFieldLimit) by (vm_compute; reflexivity).
+  split; [|exact H]. intros Hall. rewrite Hall in H. discriminate.
+Qed.
+
+(* the guard is exact *)
+Theorem csv_limit_exceeded rows :
+  ~ Forall (Forall fits) rows -> csv_rd (csv_wr rows) = Err EFieldLimit.
+Proof. exact (csv_limit_exceeded_gen _ _ _ csv_q_nl csv_d_nl csv_dq _ csv_term rows). Qed.
+
+Theorem csv_roundtrip_iff rows : csv_rd (csv_wr rows) = Ok rows <-> Forall (Forall fits) rows.
+Proof. exact (csv_roundtrip_iff_gen _ _ _ csv_q_nl csv_d_nl csv_dq _ csv_term rows). Qed.
